@@ -519,8 +519,19 @@ def wrapper(ctx, obs, rule='FWD'):
                       '', where(prog, f, c))
         e2 = inl.inline(args[2])
         alts = e2.args if isinstance(e2, ast.Call) and _leaf(e2.func) == 'PHI' else [e2]
-        ok = any('return_inverse' in ast.unparse(a) for a in alts)
-        obs.check(ok, rule, q, 'fold codes are the integer inverse of np.unique over the fold descriptor', f'`{ast.unparse(e2)[:90]}`',
+        def _flat(a):
+            return [y for x in a.args for y in _flat(x)] if isinstance(a, ast.Call) and _leaf(a.func) == 'PHI' else [a]
+        alts = [y for a in alts for y in _flat(a)]
+
+        def _injective(a):
+            # np.unique(..., return_inverse=True)[1] relabels distinct values by distinct integers; arange numbers observations
+            t = ast.unparse(a)
+            return 'return_inverse' in t or any(isinstance(n, ast.Call) and _leaf(n.func) == 'arange' for n in ast.walk(a))
+        lossy = [a for a in alts if not _injective(a)]
+        ok = bool(alts) and not lossy
+        obs.check(ok, rule, q, 'fold codes are an injective integer relabelling of the fold descriptor (np.unique inverse, or one '
+                  'code per observation)', (f'`{ast.unparse(lossy[0])[:90]}` reaches the compiled routine as fold code: distinct fold '
+                                            f'values (e.g. 1.0 and 1.5) can collapse to one integer') if lossy else '',
                   '', where(prog, f, c))
     # crossval flag: 1 iff a cv descriptor is in force
     for g in ast.walk(f.node):
